@@ -3,6 +3,8 @@ from pvmon import netgen
 from pvmon.monitors import Obs, mon_c02
 from pvmon.props.common import rng_for, run_pipeflow
 
+MANIFEST = {'text': 'Held on every flowing section of the seeded workload: an independently written momentum law (liquid and real-gas form, 3 friction models) leaves residuals <=1e-11 bar on tight solves and reported Re/lambda/velocities/norm factors follow from reported mdot/p/T.', 'note': "Fluid property values come from the public Fluid API; interior nodes of multi-section pipes are read from the solver's node table; the law is the documented one.", 'technique': 'runtime monitoring: independent constitutive-law oracle evaluated on every branch section of every returned solution'}
+
 RULE = ("seeded random networks of every library fluid with heights, loss coefficients, 1-4 sections, ju/pi "
         "valves and heat exchangers, load scale swept over 6 decades (Reynolds ~1 .. 1e7), 3 friction models, numba "
         "on/off, tight and default tolerances; after each returned pipeflow the independent momentum law of "
